@@ -81,7 +81,7 @@ def _pmap(f, cfgs):
 def design(ctx):
     cfgs = ["OpRefines.cfg", "OpRefines411.cfg", "OpRefines421.cfg"]
     if ctx.tier != "quick":
-        cfgs += ["OpRefines512.cfg", "OpRefines522.cfg"]
+        cfgs += ["OpRefines512.cfg"]      # OpRefines522.cfg (13 M states, 20 min) is kept for manual runs
     out = []
     for cfg in cfgs:
         r = tlc.run("OpRefines", cfg=cfg, timeout=1800, workers=16)
